@@ -25,7 +25,9 @@ MANIFEST = dict(
          "subset of the SARIF 2.1.0 schema (the official schema file is not in the sandbox), serde_json, std HashMap (any iteration order is a "
          "permutation), rayon's order-preserving collect. D23 (tie order, shared extension, config hash), D31 (--suggest with a non-UTF-8 name) and "
          "D37 (SARIF uri not percent-encoded) are repaired by fixes/D23-*, D31-*, D37-*.patch; D75 (html line-total cards counted structure results) "
-         "by fixes/D75-*.patch; D50 (overlapping scan roots counted twice) by fixes/D50-*.patch of the structure subsystem. Roots model: relative roots "
+         "by fixes/D75-*.patch; D50 (overlapping scan roots counted twice) by fixes/D50-*.patch of the structure subsystem; D111 (Markdown Details table: names / reasons "
+         "with pipes, backticks or line breaks broke cells, spans and rows, a split row could forge a Passed row) by fixes/D111-*.patch, Markdown is read back by a "
+         "python transcription of the GFM table and code-span rules. Roots model: relative roots "
          "without parent-dir components, keys computed by the python side (split on the slash, dot and empty components dropped).",
     ref="5 (C20)")
 
@@ -214,9 +216,22 @@ def cross_format(acc, model, outputs, case, where):
             if got != ref_np:
                 acc.fails.append(("%s: sarif: percent-decoding the uris names %s, json non-passed are %s" % (
                     where, sorted((got - ref_np).items())[:3], sorted((ref_np - got).items())[:3]), case))
-        else:  # markdown
-            if got != ref_np:
-                acc.fails.append(("%s: markdown lists %s, json non-passed are %s" % (where, sorted(got.items())[:4], sorted(ref_np.items())[:4]), case))
+        else:  # markdown: read as a GFM renderer reads it; a line break of a name / reason is shown as a space
+            ref_md = [(md_shown_name(p_), st_) for p_, st_ in ref if st_ != "passed"]
+            if P["entries"] != ref_md:
+                acc.fails.append(("%s: markdown Details table names %s, json non-passed are %s" % (
+                    where, [e for e in P["entries"] if e not in ref_md][:3] or P["entries"][:3], [e for e in ref_md if e not in P["entries"]][:3] or ref_md[:3]), case))
+            else:
+                # a table cell is trimmed by every GFM reader: the reason is compared without the spaces at its ends
+                want_reasons = [("-" if r.get("override_reason") is None else md_one_line(r["override_reason"]).strip(" ")) for r in J["rows"] if r["status"] != "passed"]
+                got_reasons = [r["reason"] for r in P["rows"]]
+                if got_reasons != want_reasons:
+                    k = next((i for i, (a_, b_) in enumerate(zip(got_reasons, want_reasons)) if a_ != b_), 0)
+                    acc.fails.append(("%s: markdown shows the reason %r for %r, json says %r" % (where, got_reasons[k], ref_md[k][0], want_reasons[k]), case))
+                if any(c in p_ for p_, st_ in ref_md for c in "|`") or any("\n" in p_ or "\r" in p_ for p_, st_ in ref if st_ != "passed"):
+                    acc.hist["%s:markdown-rows-with-pipe-backtick-or-newline-in-name" % where.split()[0]] += 1
+                if any(c in x for x in want_reasons for c in "|`\\"):
+                    acc.hist["%s:markdown-rows-with-pipe-backtick-backslash-in-reason" % where.split()[0]] += 1
         if P.get("summary") is not None and P["summary"] != want:
             acc.fails.append(("%s: %s summary %s != per-status counts of the json results %s" % (where, name, P["summary"], want), case))
     # ---- model side
@@ -241,7 +256,7 @@ def cross_format(acc, model, outputs, case, where):
     if ms != wl or mt != wl:
         bad.append("summary: model %s / %s, tool %s" % (ms, mt, wl))
     for name, idx in (("text", 2), ("text_v", 3), ("sarif", 4), ("markdown", 5), ("html", 6), ("json", 7)):
-        if name in parsed and r_entries(mo[idx]) != parsed[name]["entries"]:
+        if name in parsed and [((md_shown_name(p_), st_) if name == "markdown" else (p_, st_)) for p_, st_ in r_entries(mo[idx])] != parsed[name]["entries"]:
             bad.append("listing order of %s: model %s, tool %s" % (name, r_entries(mo[idx])[:5], parsed[name]["entries"][:5]))
     if "sarif" in parsed:
         m_uris = []
@@ -684,22 +699,46 @@ def run_project(sgcli, model, builtin, gen, P, det_full, verbose_log=None, with_
                 else:
                     acc.fails.append((msg, case))
         acc.hist["cli:determinism-runs"] += 15 * reps
-        # ---- E. with the SLOC cache on: same report, and the config hash (custom languages) is stable
+        # ---- E. with the SLOC cache on: the same reports on the cold run (no cache yet) and on every warm run (threads 4/1/16),
+        # byte for byte, and equal to the --no-sloc-cache report; the config hash (custom languages) is stable
+        acc.hist["cli:empty-source-files"] += sum(1 for k in names if P.files.get(k, P.late.get(k)) in ("", b""))
         if "structure" not in P.tags:
+            # an entry is cached only for a file that was not modified in the current second: age every file
+            for rel in names:
+                try:
+                    os.utime(os.path.join(os.fsencode(sb.proj), rel), (1614834367, 1614834367))
+                except OSError:
+                    pass
             hashes = []
             cache_tail = [a for a in tail if a != "--no-sloc-cache"]
-            for _ in range(2):
-                rc, out, err = run([], ["check"], ["--format", "json"] + cache_tail)
-                if rc != rc0 or out != outs["json"]:
-                    acc.fails.append(("check with the SLOC cache enabled reports differently from --no-sloc-cache (rc %s vs %s)" % (rc, rc0), case))
+            rc, ref_stats, err = run([], ["stats", "summary"], ["--format", "json", "--no-sloc-cache"])
+            legs = [("check --format json", ["check"], ["--format", "json"] + cache_tail, rc0, outs["json"]),
+                    ("check --format markdown", ["check"], ["--format", "markdown"] + cache_tail, rcs["markdown"], outs["markdown"]),
+                    ("stats summary --format json", ["stats", "summary"], ["--format", "json"], rc, ref_stats)]
+            for k, th in enumerate(("4", "1", "16")):
+                for what, sub, post, ref_rc, ref_out in (legs if k < 2 else legs[:1]):
+                    rc, out, err = run([], sub, post, threads=th)
+                    if rc != ref_rc or out != ref_out:
+                        detail = ""
+                        if sub == ["check"] and post[1] == "json":
+                            try:
+                                e2 = parse_check_json(out)["entries"]
+                                detail = "; results only without the cache: %s, only with it: %s" % (
+                                    [e for e in J["entries"] if e not in e2][:3], [e for e in e2 if e not in J["entries"]][:3])
+                            except Bad as e:
+                                detail = "; not well-formed: %s" % e
+                        acc.fails.append(("%s with the SLOC cache enabled (%s run of three over one cache, %s threads) is not byte-identical to the report of the same "
+                                          "project with --no-sloc-cache (rc %s vs %s)%s" % (what, "first" if k == 0 else "later", th, rc, ref_rc, detail), case))
                 try:
                     hashes.append(json.load(open(os.path.join(sb.proj, ".sloc-guard", "cache.json")))["config_hash"])
                 except Exception:
                     hashes.append(None)
             if len(set(hashes)) != 1:
-                msg = "cache config_hash differs between two runs of one configuration: %s" % hashes
+                msg = "cache config_hash differs between runs of one configuration: %s" % hashes
                 (acc.known.append(("D23-hashmap-order", msg, case)) if gen == "0" else acc.fails.append((msg, case)))
-            acc.hist["cli:cache-on-runs"] += 2
+            acc.hist["cli:cache-on-runs"] += 7
+            if any(P.files.get(k, P.late.get(k)) in ("", b"") for k in names):
+                acc.hist["cli:cache-on-projects-with-empty-file"] += 1
         # ---- F. overlapping scan roots
         if with_roots:
             roots_phase(acc, model, P, J, run, case, tail)
@@ -1105,7 +1144,7 @@ def run(ctx):
     t0 = time.time()
     lib = lib_phase(ctx, impl, model, builtin, gen, *((400, 150, 100) if quick else (10000, 3000, 1500)))
     t1 = time.time()
-    cli, projects = cli_phase(ctx, sgcli, model, builtin, gen, *((24, 10, 5) if quick else (320, 100, 80)))
+    cli, projects = cli_phase(ctx, sgcli, model, builtin, gen, *((26, 10, 5) if quick else (320, 100, 80)))
     t2 = time.time()
     acc = Acc()
     acc.merge(lib)
@@ -1125,7 +1164,9 @@ def run(ctx):
         "projects of 8 kinds (none, plain, ties in every sort key, hostile names incl. quotes/angle brackets/ampersands/newlines/percent/non-UTF-8 "
         "bytes, structure rules, baseline with grandfathered and new failures, several custom languages sharing an extension, mixed); each: check in "
         "5 formats + -v, side-cars, -q/-vv/--suggest/--color always, stats files|summary|breakdown|report in every format, 3-15 repeated runs of 5 "
-        "commands under RAYON_NUM_THREADS 1/4/16; the html line-total cards against stats summary / --report-json; for 5 (thorough 80) projects "
+        "commands under RAYON_NUM_THREADS 1/4/16; with the SLOC cache on (files aged so that entries are stored; projects with EMPTY recognised source "
+        "files and a file ignored by directive): check json / markdown / stats summary on the first and on later runs over one cache (threads 4/1/16) byte-identical "
+        "to the --no-sloc-cache reports; the html line-total cards against stats summary / --report-json; for 5 (thorough 80) projects "
         "with a sub-directory: runs over overlapping scan roots (. d | d . | d d | d d/file | d/file d | file file | ./d d/) against the single covering root. evaluations = library cases answered + projects; non-trivial = distinct case with a non-passed "
         "result, a tie in a breakdown sort key, or an extension claimed by two custom languages; traces_validated = comparisons model-vs-tool that agreed")
     ctx.cov["input_distribution"] = dict(acc.hist)
@@ -1139,7 +1180,8 @@ def run(ctx):
     ctx.cov["trusted_base"] = TRUSTED_COMMON + [
         "SARIF: validated against a hand-transcribed subset of sarif-schema-2.1.0 (allowed/required properties, enums, integer minima of the 13 object "
         "types the tool emits) plus RFC 3986 uri-reference syntax of every artifactLocation.uri; the official schema file is not in the sandbox",
-        "python extractors for the unescaped formats (text, Markdown): a file name that itself forges a header/row line is outside the generated names",
+        "python extractor for the unescaped text format: a file name that itself forges a header line is outside the generated names; Markdown is read by a "
+        "python transcription of the GFM table / code-span / backslash-escape rules (cells end at pipes not preceded by a backslash, CommonMark 6.1 code spans)",
         "python html.parser as the reference HTML tokenizer; serde_json for JSON well-formedness of strings",
         "std HashMap: iteration order is some permutation of the entries (modelled by the selection code pi); rayon collect preserves order",
         "Path::parent / display_path are modelled for clean relative paths as the scanner yields them"]
